@@ -54,11 +54,17 @@ type Pt struct {
 
 // Op is one logical operation of a history.
 type Op struct {
-	Kind   string `json:"op"` // write | delrange | delseries | snapshot | compact_level | compact_full | close | close_flush
+	Kind   string `json:"op"` // write | delrange | delseries | snapshot | compact_level | compact_full | close | close_flush | hold | release
 	Pts    []Pt   `json:"pts,omitempty"`
 	Series string `json:"series,omitempty"`
 	Min    int64  `json:"min,omitempty"`
 	Max    int64  `json:"max,omitempty"`
+	// hold: open one read cursor (Engine.KeyCursor, field "v", from t=0 ascending) per series of Hold and keep it
+	// open - i.e. keep the references on the TSM files holding blocks of those series - until "release". InUse is
+	// the expected in-use pattern right after the hold, one '1'/'0' per TSM file in path order (the writer fails,
+	// as a harness error, if the real reference state differs: the history would not reach the intended path).
+	Hold  []string `json:"hold,omitempty"`
+	InUse string   `json:"in_use,omitempty"`
 }
 
 // History is a named op list plus the WAL segment size (0 = default 10 MiB, i.e. no roll).
@@ -66,12 +72,18 @@ type History struct {
 	Name           string `json:"name"`
 	WALSegmentSize int    `json:"wal_segment_size,omitempty"`
 	Ops            []Op   `json:"ops"`
+	// WindowFrom > 0: only the crash images whose cut lies after the BEGIN marker of op WindowFrom are recovered
+	// (the ops before it only build the fixture; their commit sequences are the subject of other histories).
+	WindowFrom int `json:"window_from_op,omitempty"`
+	// POnly: only prefix images (crash between two syscalls) are taken inside the window.
+	POnly bool `json:"prefix_images_only,omitempty"`
 }
 
 const (
 	sA = "cpu,host=A"
 	sB = "cpu,host=B"
 	sM = "mem,host=A"
+	sC = "cpu,host=C" // only used by the reader-held histories (a TSM file that stays out of the compaction)
 )
 
 func w(pts ...Pt) Op                    { return Op{Kind: "write", Pts: pts} }
@@ -80,6 +92,7 @@ func iw(s string, t int64, v int) Pt    { return Pt{S: s, F: "w", T: t, V: fmt.S
 func ss(s string, t int64, v string) Pt { return Pt{S: s, F: "s", T: t, V: "s:" + v} }
 func delr(s string, a, b int64) Op      { return Op{Kind: "delrange", Series: s, Min: a, Max: b} }
 func dels(s string) Op                  { return Op{Kind: "delseries", Series: s} }
+func hold(inUse string, s ...string) Op { return Op{Kind: "hold", Hold: s, InUse: inUse} }
 
 var (
 	snap  = Op{Kind: "snapshot"}
@@ -87,7 +100,63 @@ var (
 	full  = Op{Kind: "compact_full"}
 	closE = Op{Kind: "close"}
 	closF = Op{Kind: "close_flush"}
+	rel   = Op{Kind: "release"}
 )
+
+// heldHistories is the reader-held family: a compaction commits (FileStore.replace) while read cursors still hold
+// references on some of the files it replaces, so replace takes its in-use path for those files (rename the old
+// file to *.tsm.tmp, remove its tombstone file, hand the file to the purger, which unlinks it once the readers
+// are gone) and its ordinary path (close, remove file and tombstone) for the others. The family is the full product
+//
+//	compaction {full, level(first two of three files)} x acknowledged delete on file 1 {range, whole series}
+//	x files held {the tombstoned file 1 only, the tombstone-free file 2 only, both (file 1 twice)}
+//
+// Layout: file 1 = cpu,host=A t=1..3 + cpu,host=B t=1 (then the delete => tombstone next to file 1); file 2 =
+// cpu,host=A t=2 (overwrite), t=5 + mem,host=A t=1; level only: file 3 = cpu,host=C t=1. Only the images cut after
+// "hold" began are recovered (WindowFrom): what precedes is the fixture.
+func heldHistories(tier string) []History {
+	var hs []History
+	n := 2000
+	for _, comp := range []string{"full", "level"} {
+		for _, del := range []string{"range", "series"} {
+			for _, hd := range []string{"tombstoned", "other", "all"} {
+				n += 20
+				ops := []Op{
+					w(fv(sA, 1, n+1), fv(sA, 2, n+2), fv(sA, 3, n+3), fv(sB, 1, n+4)),
+					snap,
+				}
+				if del == "range" {
+					ops = append(ops, delr(sA, 2, 3))
+				} else {
+					ops = append(ops, dels(sA))
+				}
+				ops = append(ops, w(fv(sA, 2, n+5), fv(sA, 5, n+6), fv(sM, 1, n+7)), snap)
+				third := ""
+				if comp == "level" {
+					ops = append(ops, w(fv(sC, 1, n+8)), snap)
+					third = "0"
+				}
+				from := len(ops)
+				switch hd {
+				case "tombstoned":
+					ops = append(ops, hold("10"+third, sB))
+				case "other":
+					ops = append(ops, hold("01"+third, sM))
+				case "all":
+					ops = append(ops, hold("11"+third, sA, sB, sM))
+				}
+				if comp == "full" {
+					ops = append(ops, full)
+				} else {
+					ops = append(ops, lvl)
+				}
+				ops = append(ops, rel)
+				hs = append(hs, History{Name: "held/" + comp + "/del-" + del + "/hold-" + hd, Ops: ops, WindowFrom: from, POnly: tier != "thorough"})
+			}
+		}
+	}
+	return hs
+}
 
 // histories returns the canonical histories; every written value is unique so "most recent" is observable.
 // Coverage intent (which commit sequence is in flight at some cut) is noted per history.
@@ -127,9 +196,9 @@ func histories(tier string) []History {
 		}},
 	}
 	if tier != "thorough" {
-		return hs
+		return append(hs, heldHistories(tier)...)
 	}
-	return append(hs,
+	hs = append(hs,
 		// level compaction of two snapshots and full compaction, tombstone on a compacted file, delete of a whole
 		// series and its re-creation.
 		History{Name: "compactions", Ops: []Op{
@@ -258,6 +327,7 @@ func histories(tier string) []History {
 			closE,
 		}},
 	)
+	return append(hs, heldHistories(tier)...)
 }
 
 // ---------------------------------------------------------------------------------------------------------
@@ -464,8 +534,54 @@ func doOp(e *tsm1.Engine, op Op) error {
 		return e.Close(false)
 	case "close_flush":
 		return e.Close(true)
+	case "hold":
+		for _, s := range op.Hold {
+			heldCursors = append(heldCursors, e.KeyCursor(ctx, tsm1.SeriesFieldKeyBytes(s, "v"), 0, true))
+		}
+		if got := inUsePattern(e); got != op.InUse {
+			return fmt.Errorf("hold %v: TSM files in use %q, the history expects %q", op.Hold, got, op.InUse)
+		}
+		return nil
+	case "release":
+		for _, c := range heldCursors {
+			c.Close()
+		}
+		heldCursors = nil
+		// the purger (a goroutine polling once per second) unlinks the replaced files the readers held; the op is
+		// complete when it has done so
+		for i := 0; ; i++ {
+			left, err := filepath.Glob(filepath.Join(e.Path(), "*."+tsm1.TSMFileExtension+"."+tsm1.TmpTSMFileExtension))
+			if err != nil {
+				return err
+			}
+			if len(left) == 0 {
+				return nil
+			}
+			if i > 300 {
+				return fmt.Errorf("release: the purger left %v after 30 s", left)
+			}
+			time.Sleep(100 * time.Millisecond)
+		}
 	}
 	return fmt.Errorf("unknown op %q", op.Kind)
+}
+
+// heldCursors are the read cursors the history writer keeps open between "hold" and "release".
+var heldCursors []*tsm1.KeyCursor
+
+// inUsePattern is one '1' (referenced by a reader) or '0' per TSM file of the file store, in path order.
+func inUsePattern(e *tsm1.Engine) string {
+	fs := append([]tsm1.TSMFile{}, e.FileStore.Files()...)
+	sort.Slice(fs, func(i, j int) bool { return fs[i].Path() < fs[j].Path() })
+	var b strings.Builder
+	for _, f := range fs {
+		if f.InUse() {
+			b.WriteByte('1')
+		} else {
+			b.WriteByte('0')
+		}
+	}
+	return b.String()
 }
 
 // ---------------------------------------------------------------------------------------------------------
@@ -542,7 +658,7 @@ func extra(n int) []Pt {
 	return []Pt{{S: sX, F: "v", T: int64(9000 + n), V: fmt.Sprintf("f:%d", 990000+n)}}
 }
 
-var universe = []string{sA, sB, sM, sX}
+var universe = []string{sA, sB, sM, sX, sC}
 var universeFields = []string{"v", "w", "s"}
 
 func readAll(e *tsm1.Engine) (State, error) {
@@ -1094,6 +1210,20 @@ func recordHistory(scratch string, h History) (*crashfs.Log, error) {
 	})
 }
 
+// windowStart returns the index of the event that is the BEGIN marker of op h.WindowFrom (-1 for histories without
+// a window, i.e. every cut counts; -2 if the marker is missing).
+func windowStart(l *crashfs.Log, h History) int {
+	if h.WindowFrom <= 0 {
+		return -1
+	}
+	for i := range l.Events {
+		if m := l.Events[i].Marker; m != nil && m.Kind == "BEGIN" && m.K == h.WindowFrom {
+			return i
+		}
+	}
+	return -2
+}
+
 func shapeHash(l *crashfs.Log) string {
 	s := sha256.Sum256([]byte(l.Shape()))
 	return hex.EncodeToString(s[:8])
@@ -1305,7 +1435,26 @@ func run(c *vlib.Ctx) {
 		c.Extra("syscalls_in_logs", int64(l.Syscalls))
 		var st crashfs.Stats
 		byHash := map[string]*group{}
+		from := windowStart(l, hs[hi])
+		if from == -2 {
+			c.HarnessError(fmt.Sprintf("history %s: no BEGIN marker for op %d in the recording", hs[hi].Name, hs[hi].WindowFrom))
+			continue
+		}
 		for im := range l.Images(imgOpts, &st) {
+			if im.Desc.Cut <= from {
+				c.Extra("images_before_window_not_recovered", 1)
+				continue
+			}
+			if hs[hi].POnly && im.Desc.Kind != crashfs.KindP {
+				c.Extra("torn_and_unsynced_images_in_window_left_to_thorough", 1)
+				continue
+			}
+			if hs[hi].WindowFrom > 0 {
+				c.Extra("reader_held_window_images:"+im.Desc.Kind, 1)
+				if im.Desc.Kind == crashfs.KindP && (im.NextOp == crashfs.OpRename || im.NextOp == crashfs.OpUnlink) {
+					c.Extra("reader_held_window_cuts_before:"+im.NextOp+"_"+fileClass(im.NextClass), 1)
+				}
+			}
 			g := byHash[im.Hash]
 			if g == nil {
 				g = &group{im: im, hi: hi}
@@ -1346,7 +1495,7 @@ func run(c *vlib.Ctx) {
 	var jobs []job
 	for i := 0; i < len(groups); {
 		j := i
-		for j < len(groups) && j-i < batch && groups[j].hi == groups[i].hi { // a batch shares the history's WAL segment size
+		for j < len(groups) && j-i < batch && hs[groups[j].hi].WALSegmentSize == hs[groups[i].hi].WALSegmentSize { // a batch shares one WAL segment size
 			j++
 		}
 		jobs = append(jobs, job{groups[i:j]})
@@ -1448,6 +1597,8 @@ func run(c *vlib.Ctx) {
 			c.Eval(1)
 			if o.Stage >= 1 && len(o.S1) > 0 && stateHash(o.S1) != final[g.hi] {
 				c.NontrivialN(1)
+			} else if hs[g.hi].WindowFrom > 0 && infl != nil && infl.Kind != "hold" {
+				c.NontrivialN(1) // reader-held family: the cut is inside the compaction commit or the purge of the held files
 			}
 			res := "ok"
 			if clause != "" {
